@@ -17,14 +17,15 @@ import (
 
 // Job is one harness function at one concrete argument vector.
 type Job struct {
-	Loaded   *Loaded
-	Pkg      string // import path
-	Func     string
-	Args     []int
-	Budget   int64
-	MaxPaths int
-	Timeout  time.Duration
-	Expect   string // "" (no violation expected) or "violation" for vacuity twins
+	Loaded         *Loaded
+	Pkg            string // import path
+	Func           string
+	Args           []int
+	Budget         int64
+	MaxPaths       int
+	Timeout        time.Duration
+	Expect         string // "" (no violation expected) or "violation" for vacuity twins
+	QueryTimeoutMs int
 }
 
 func (j *Job) Name() string {
@@ -176,7 +177,11 @@ func (e *explorer) done(children []*item) {
 }
 
 func (e *explorer) worker(w int) {
-	solver, err := smt.Start(e.solverKind, 10000)
+	qt := 10000
+	if e.job.QueryTimeoutMs > 0 {
+		qt = e.job.QueryTimeoutMs
+	}
+	solver, err := smt.Start(e.solverKind, qt)
 	if err != nil {
 		e.mu.Lock()
 		e.res.EngineErrors = append(e.res.EngineErrors, "cannot start solver: "+err.Error())
